@@ -27,6 +27,12 @@ C10_OK(ev, i) == LET a == Base(ev, i) b == Base2(ev, i) IN
   ELSE /\ Stacked(a.rows, b.rows, ev.rows, ev.rel.gap)
        /\ UnionDoc(a.doc, b.doc, ev.doc, 0, 16000 * (Len(a.rows) + ev.rel.gap))
 C11_OK(ev, i) == LET a == Base(ev, i) IN a.rows = ev.rows /\ ScaledDoc(a.doc, ev.doc)
+C15_OK(ev, i) == LET a == Base(ev, i) ca == DrawCells(a) cb == DrawCells(ev) IN
+  /\ QuoteDomain(ca) /\ ~HasQuoted(cb)
+  /\ Len(ca) = Len(cb)
+  /\ \A r \in 1..Len(ca) : RStripCells(cb[r]) = RStripCells(BlankQuoted(ca[r]))
+  /\ a.doc.wf = 1 /\ ev.doc.wf = 1
+  /\ SameBag(a.doc.elems, ev.doc.elems \o QuotedElems(ca))
 C17_OK(ev, i) == LET a == Base(ev, i) IN EolVariant(a.rows, ev.rows) /\ SameDoc(a.doc, ev.doc)
 
 Holds(ev, i, p) ==
@@ -40,6 +46,9 @@ Holds(ev, i, p) ==
     [] p = "C10" -> C10_OK(ev, i)
     [] p = "C11" -> C11_OK(ev, i)
     [] p = "C17" -> C17_OK(ev, i)
+    [] p = "C15" -> C15_OK(ev, i)
+    [] p = "C02" -> C02_OK(ev)
+    [] p = "C08" -> C08_OK(ev)
     [] OTHER -> FALSE      \* an unknown predicate name is reported, never silently accepted
 
 NonTrivial(ev, i, p) ==
@@ -47,6 +56,9 @@ NonTrivial(ev, i, p) ==
     [] p = "C12" -> C12_NT(ev)
     [] p = "C09" -> C09_NT(ev)
     [] p = "C09run" -> TRUE
+    [] p = "C15" -> HasQuoted(DrawCells(Base(ev, i)))
+    [] p = "C02" -> C02_NT(ev)
+    [] p = "C08" -> C08_NT(ev)
     [] p = "C04" -> C04_NT(ev)
     [] p \in {"C06", "C10", "C11", "C17"} -> Len(ev.doc.elems) > 0
     [] OTHER -> FALSE
